@@ -72,6 +72,12 @@ type target struct {
 	// ext_isostat.go
 	NilRes    []string // result types (source text, e.g. "*Rule") reported as a Z code like an error: 0 = nil, Errs[expr] otherwise
 	LoopFrame int      // N >= 1: the whole function with its N-th top-level loop replaced by the parameter loop_fn (carried tuple -> carried tuple)
+	// ext_chain.go
+	RefTypes  []string        // type texts whose variables / results are object references (abstract ids, 0 = nil)
+	RefCalls  map[string]hint // method name -> parameter (Z -> Typ) applied to the reference the method is called on
+	Stores    map[string]act  // left-hand side text of an assignment -> recorded action (Keep [0]: the stored value)
+	LoopMarks map[int]act     // k-th loop in source order at any depth -> recorded action (the loop is not read)
+	LoopAny   bool            // with LoopBody N: N counts loops at any depth; no prologue (declarations only)
 }
 
 var targets = []target{
@@ -401,9 +407,10 @@ type tr struct {
 	results  []string          // named results
 	resTypes []string
 	fresh    int
-	noTrace  bool     // effects.go: translating an inlined callee (no action trace of its own)
-	loop     *loopCtx // loopbody.go: set for a LoopBody target
-	pending  []string // effects.go: let-bindings to be placed in front of the statement being executed
+	noTrace  bool          // effects.go: translating an inlined callee (no action trace of its own)
+	loop     *loopCtx      // loopbody.go: set for a LoopBody target
+	pending  []string      // effects.go: let-bindings to be placed in front of the statement being executed
+	markFn   *ast.FuncDecl // ext_chain.go: the function whose loops LoopMarks numbers
 }
 
 var coqKeywords = map[string]bool{"end": true, "at": true, "in": true, "as": true, "fun": true, "return": true, "match": true,
@@ -603,6 +610,9 @@ func (x *tr) expr(e ast.Expr) val {
 		if v, ok := x.selectorShaping(s); ok { // ext_shaping.go
 			return v
 		}
+		if v, ok := x.refField(e); ok { // ext_chain.go
+			return v
+		}
 		fail("selector %s (add a hint)", s)
 	case *ast.UnaryExpr:
 		if v, ok := x.addrOf(e); ok { // ext_hotspot.go: &local handed to a recorded action
@@ -653,6 +663,9 @@ func (x *tr) binary(e *ast.BinaryExpr) val {
 		return val{coq: "(" + op + " " + a.coq + " " + b.coq + ")", typ: "bool"}
 	}
 	if v, ok := x.nilTest(e); ok {
+		return v
+	}
+	if v, ok := x.refNilTest(e); ok { // ext_chain.go
 		return v
 	}
 	ra, rb := x.expr(e.X), x.expr(e.Y)
@@ -810,6 +823,9 @@ func (x *tr) call(e *ast.CallExpr) val {
 	if v, ok := x.actCall(e); ok {
 		return v
 	}
+	if v, ok := x.refCall(e); ok { // ext_chain.go
+		return v
+	}
 	if g, ok := x.t.Calls[fn]; ok {
 		callee := x.p.funcs[fn]
 		if callee == nil {
@@ -869,6 +885,9 @@ func (x *tr) call(e *ast.CallExpr) val {
 	if v, ok := x.callShaping(fn, e); ok { // ext_shaping.go
 		return v
 	}
+	if v, ok := x.lenSlice(fn, e); ok { // ext_chain.go
+		return v
+	}
 	fail("call %s (add a hint)", src(x.p.fset, e))
 	return val{}
 }
@@ -883,7 +902,7 @@ func (x *tr) zero(t string) string {
 		return "0%float"
 	case t == "bool":
 		return "false"
-	case t == "error":
+	case t == "error", t == "iface":
 		return "0%Z"
 	case t == "tokres":
 		return "(0%Z, 0%Z)"
@@ -1083,6 +1102,8 @@ func (x *tr) exec1(stmts []ast.Stmt, rest [][]ast.Stmt) string { // called throu
 				vs = append(vs, x.errVal(r))
 			} else if x.resTypes[i] == "tokres" {
 				vs = append(vs, x.tokresVal(r))
+			} else if x.resTypes[i] == "iface" {
+				vs = append(vs, x.refVal(r)) // ext_chain.go
 			} else {
 				vs = append(vs, x.coerce(x.expr(r), x.resTypes[i]).coq)
 			}
@@ -1110,6 +1131,9 @@ func (x *tr) exec1(stmts []ast.Stmt, rest [][]ast.Stmt) string { // called throu
 			return x.exec(append([]ast.Stmt{d}, tail...), rest)
 		}
 		if x.appendAct(s) || x.ptrHint(s) || x.ptrActAssign(s) || x.newObject(s) { // ext_isostat.go
+			return x.exec(tail, rest)
+		}
+		if x.storeAct(s) || x.sliceHint(s) { // ext_chain.go
 			return x.exec(tail, rest)
 		}
 		if x.opaqueMulti(s) { // effects.go
@@ -1184,6 +1208,13 @@ func (x *tr) exec1(stmts []ast.Stmt, rest [][]ast.Stmt) string { // called throu
 		}
 		if vs.Type != nil && src(x.p.fset, vs.Type) == "string" {
 			x.vars[vs.Names[0].Name] = "string"
+			return x.exec(tail, rest)
+		}
+		if x.declRef(vs) { // ext_chain.go: a reference starts as nil
+			x.vars[vs.Names[0].Name] = "iface"
+			return "let " + cname(vs.Names[0].Name) + " := 0%Z in\n  " + x.exec(tail, rest)
+		}
+		if len(vs.Values) == 1 && x.structLitDecl(vs.Names[0].Name, vs.Values[0]) { // ext_chain.go
 			return x.exec(tail, rest)
 		}
 		if x.declPointer(vs) { // ext_shaping.go
@@ -1295,7 +1326,14 @@ func (x *tr) exec1(stmts []ast.Stmt, rest [][]ast.Stmt) string { // called throu
 		return out
 	case *ast.EmptyStmt:
 		return x.exec(tail, rest)
+	case *ast.DeferStmt:
+		if x.deferAct(s) { // ext_chain.go
+			return x.exec(tail, rest)
+		}
 	case *ast.RangeStmt:
+		if k := x.markedLoop(s); k > 0 {
+			return x.markLoop(k, s, tail, rest) // ext_chain.go
+		}
 		if x.isFrameLoop(s) {
 			return x.frameLoop(s, s.Body, nil, tail, rest) // ext_isostat.go
 		}
@@ -1304,6 +1342,9 @@ func (x *tr) exec1(stmts []ast.Stmt, rest [][]ast.Stmt) string { // called throu
 		}
 		return x.execLoop(s, tail, rest) // effects.go
 	case *ast.ForStmt:
+		if k := x.markedLoop(s); k > 0 {
+			return x.markLoop(k, s, tail, rest) // ext_chain.go
+		}
 		if x.isFrameLoop(s) {
 			return x.frameLoop(s, s.Body, s, tail, rest) // ext_isostat.go
 		}
@@ -1358,6 +1399,8 @@ func coqType(t string) string {
 		return "(Z * Z)"
 	case strings.HasPrefix(t, "fn:"):
 		return fnCoqType(t) // ext_isostat.go
+	case strings.HasPrefix(t, "fnz:"):
+		return fnzCoqType(t) // ext_chain.go
 	}
 	return "?"
 }
@@ -1420,7 +1463,11 @@ func translate(root *rootT, t target) (def string, info outFn) {
 	if t.Lit > 0 { // the target is the t.Lit-th function literal inside the function (effects.go)
 		fd = litDecl(fd, t.Lit, addVar)
 	}
-	if t.LoopBody > 0 {
+	x.markFn = fd
+	var before []ast.Stmt
+	if t.LoopBody > 0 && t.LoopAny {
+		x.loop, before = findLoopAny(fd.Body, t.LoopBody) // ext_chain.go
+	} else if t.LoopBody > 0 {
 		x.loop = findLoop(fd.Body, t.LoopBody) // loopbody.go
 	}
 	if fd.Type.Results == nil && len(t.Acts) == 0 && x.loop == nil {
@@ -1438,6 +1485,9 @@ func translate(root *rootT, t target) (def string, info outFn) {
 		}
 		if x.isTokres(f.Type) {
 			ty = "tokres" // (tag, value): see ext_hotspot.go
+		}
+		if x.isRefType(f.Type) {
+			ty = "iface" // an object reference: see ext_chain.go
 		}
 		if x.isAppendOnly(f) {
 			ty = "string" // ext_isostat.go: a slice that only receives recorded appends; dropped from the result tuple
@@ -1468,7 +1518,12 @@ func translate(root *rootT, t target) (def string, info outFn) {
 	}
 	// drop scalar Go parameters that the body never reads? No: keep them, the signature is part of
 	// the obligation.
-	body := pre + x.exec(fd.Body.List, nil)
+	var body string
+	if t.LoopAny && x.loop != nil {
+		body = pre + x.stepOnly(before) // ext_chain.go
+	} else {
+		body = pre + x.exec(fd.Body.List, nil)
+	}
 	var names []string
 	for n := range x.params {
 		names = append(names, n)
